@@ -88,3 +88,38 @@ fn f18a_null_does_not_consume_a_field_number() {
     // x is written as field 1 (08 09) although the generated .proto numbers it 2
     assert_eq!(w.into_bytes_vec(), vec![0x08, 0x09]);
 }
+
+mod cv1 {
+    use asn1rs::prelude::*;
+    asn_to_rust!(
+        r"CV1 DEFINITIONS AUTOMATIC TAGS ::= BEGIN
+          S ::= SEQUENCE { a BOOLEAN, ..., b INTEGER (0..255) OPTIONAL }
+          T ::= INTEGER (0..65535)
+        END"
+    );
+}
+mod cv2 {
+    use asn1rs::prelude::*;
+    asn_to_rust!(
+        r"CV2 DEFINITIONS AUTOMATIC TAGS ::= BEGIN
+          S ::= SEQUENCE { a BOOLEAN, ..., b INTEGER (0..255) OPTIONAL, c INTEGER (0..255) OPTIONAL }
+          T ::= INTEGER (0..65535)
+        END"
+    );
+}
+
+#[test]
+fn f05b_unknown_additions_are_not_skipped() {
+    use asn1rs::prelude::*;
+    let mut w = UperWriter::default();
+    w.write(&cv2::S { a: true, b: Some(1), c: Some(2) }).unwrap();
+    w.write(&cv2::T(0xABCD)).unwrap();
+    let n = w.bit_len();
+    let bytes = w.into_bytes_vec();
+    let mut r = UperReader::from((&bytes[..], n));
+    let s = r.read::<cv1::S>().unwrap();
+    assert_eq!((s.a, s.b), (true, Some(1)));
+    let t = r.read::<cv1::T>();
+    // the sentinel that follows the V2 value is not read back correctly under V1
+    assert!(t.is_err() || t.unwrap().0 != 0xABCD || r.bits_remaining() != 0);
+}
